@@ -319,8 +319,24 @@ func c01Lists(c *Ctx) {
 			nlay := nlayAll
 			r := k.Rand()
 			recs := genFastaList(r)
+			var ar *arenaT
+			if k.Idx%2 == 1 && len(recs) <= 40 {
+				// names and sequences as adjacent windows of one buffer
+				var parts [][]byte
+				for _, rec := range recs {
+					parts = append(parts, rec.Name, rec.Sequence)
+				}
+				ar = newArena(r, parts...)
+				for j, rec := range recs {
+					rec.Name, rec.Sequence = ar.parts[2*j], ar.parts[2*j+1]
+				}
+				k.Count("arena_cases", 1)
+			}
 			k.Input("records", func() string { return fastaListString(recs) })
 			text := fastaWrite(k, recs)
+			if ar != nil && arenaFail(k, ar, "Fasta.Write/MarshalText") {
+				return
+			}
 			fastaShape(k, recs, text)
 			fastaDecodeCompare(k, "written text", recs, text)
 			k.Count("records_roundtripped", int64(len(recs)))
